@@ -17,6 +17,9 @@
 #include "hcommon.h"
 #include <rtosc/ports.h>
 #include <rtosc/rtosc.h>
+#include <rtosc/port-sugar.h>
+#include <cstddef>
+#include <cctype>
 #include <memory>
 #include <functional>
 
@@ -32,6 +35,29 @@ static std::string lochex(const char *loc)
     return hex(loc, strlen(loc));
 }
 
+struct Dyn;
+
+// ---- the library's own recursion callbacks (port-sugar.h) -------------------
+// About a third of the sub-tree ports get rRecurCb (names without '#') or
+// rRecursCb (names with '#') as their callback instead of the stand-in below.
+// The macros want a static `ports` in the child's type: SubProxy forwards to
+// the run-time built sub-table of the port being served and translates the
+// pointer the macro computed (&obj->one / &obj->many[idx]) back to the
+// object numbering of the stand-in, so both kinds log the same events.
+struct SubProxy { void dispatch(const char *msg, RtData &d) const; };
+struct Child  { char x[4]; static const SubProxy ports; };
+const SubProxy Child::ports;
+struct Holder { char pad[3]; Child one; Child many[40]; };
+struct Frame  { Dyn *self; long id; long parent; };
+static std::vector<Frame> g_frames;
+
+#define rObject Holder
+static const std::function<void(const char*, RtData&)> g_recur_cb  = rRecurCb(one);
+static const std::function<void(const char*, RtData&)> g_recurs_cb = rRecursCb(many, 40);
+#undef rObject
+
+static long child_obj(long o, long tid, long id, long n) { return o * 131 + tid * 17 + id * 7 + n + 1; }
+
 struct Dyn : Ports {
     long tid = 0;
     bool dflt = false;
@@ -39,31 +65,46 @@ struct Dyn : Ports {
     std::vector<std::unique_ptr<Dyn>> subs;
     std::vector<int> want_pos, want_assoc;   // from the case line
     Dyn() : Ports({}) {}
+    bool macro_port(long id) const { return (tid + id) % 3 == 0; }
     void finish()
     {
         for(size_t i = 0; i < names.size(); ++i) {
             Dyn *sub = subs[i].get();
             long id = i;
             Dyn *self = this;
+            bool macro = macro_port(id);
             ports.push_back(Port{names[i].c_str(), "", sub,
-                [self, id, sub](const char *msg, RtData &d) {
+                [self, id, sub, macro](const char *msg, RtData &d) {
                     std::ostringstream o;
                     o << self->tid << ":" << id << "@" << (msg - g_msg_base) << "/" << (long)(intptr_t)d.obj
                       << "/" << lochex(d.loc) << "/" << (d.port == &self->ports[id] ? 1 : 0)
                       << "/" << (self->ports[id].ports ? "I" : "L");
                     g_log->push_back(o.str());
-                    if(sub) {
-                        long n = 0;
-                        if(strchr(self->names[id].c_str(), '#')) {
-                            const char *mm = msg;
-                            while(*mm && !isdigit(*mm)) ++mm;
-                            n = atoi(mm);
-                        }
-                        d.obj = (void*)(intptr_t)((long)(intptr_t)d.obj * 131 + self->tid * 17 + id * 7 + n + 1);
-                        while(*msg && *msg != '/') ++msg;       // SNIP
-                        msg = *msg ? msg + 1 : msg;
-                        sub->dispatch(msg, d);
+                    if(!sub) return;
+                    const char *name = self->names[id].c_str();
+                    const char *hash = strchr(name, '#');
+                    if(macro) {
+                        g_frames.push_back(Frame{self, id, (long)(intptr_t)d.obj});
+                        (hash ? g_recurs_cb : g_recur_cb)(msg, d);
+                        g_frames.pop_back();
+                        return;
                     }
+                    // stand-in: what rRecursCb / rRecurCb do
+                    long n = 0;
+                    if(hash) {                                  // rBOILS_BEGIN
+                        const char *mm = msg;
+                        for(const char *pn = name; pn != hash && *mm; ++pn) ++mm;
+                        while(*mm && !isdigit(*mm)) ++mm;
+                        n = atoi(mm);
+                    }
+                    d.obj = (void*)(intptr_t)child_obj((long)(intptr_t)d.obj, self->tid, id, n);
+                    int k = 0;                                  // SNIP: one component per '/' of the name
+                    for(const char *pn = name; *pn && *pn != ':'; ++pn) k += (*pn == '/');
+                    do {
+                        while(*msg && *msg != '/') ++msg;
+                        msg = *msg ? msg + 1 : msg;
+                    } while(--k > 0);
+                    sub->dispatch(msg, d);
                 }});
         }
         if(dflt) {
@@ -77,6 +118,26 @@ struct Dyn : Ports {
         refreshMagic();
     }
 };
+
+void SubProxy::dispatch(const char *msg, RtData &d) const
+{
+    if(g_frames.empty()) { g_log->push_back("ERR"); return; }
+    Frame f = g_frames.back();
+    Dyn *sub = f.self->subs[f.id].get();
+    long off = (long)(intptr_t)d.obj - f.parent;
+    long n;
+    if(strchr(f.self->names[f.id].c_str(), '#')) {
+        long a = off - (long)offsetof(Holder, many);
+        if(a < 0 || a % (long)sizeof(Child)) { g_log->push_back("ERR"); return; }
+        n = a / (long)sizeof(Child);
+    } else {
+        if(off != (long)offsetof(Holder, one)) { g_log->push_back("ERR"); return; }
+        n = 0;
+    }
+    if(d.port != &f.self->ports[f.id] || !sub) { g_log->push_back("ERR"); return; }
+    d.obj = (void*)(intptr_t)child_obj(f.parent, f.self->tid, f.id, n);
+    sub->dispatch(msg, d);
+}
 
 static std::vector<int> ints(const std::string &s)
 {
